@@ -7,7 +7,9 @@ import VaxisModel.Lemmas.C07Gate
 /-! Driver for C04 (stateful; one case = one Vaxis session on the fake console). Lines:
 
   #case <id>
-  env <9 bits: kittyKeyboard sixels unicodeCore explicitWidth colorThemeUpdates inBandResize osc176 synchronizedUpdate disableMouse> <kittyFlags> <userCursorStyle> <appId hex>
+  env <9 bits: kittyKeyboard sixels unicodeCore explicitWidth colorThemeUpdates inBandResize osc176 synchronizedUpdate disableMouse> <kittyFlags> <userCursorStyle> <appId hex> <terminal's original cursor style> <terminal's original app id hex>
+                     (the first three values are what Vaxis stored — inputs of the model; the last two are the fake terminal's own configuration — the ORIGINAL values the oracle compares with)
+  setappid <id hex>  \t bytes    SetAppID: model = the direct OSC 176 write
   startup            \t bytes    model = tokens of `startupW`
   bytes              \t bytes    frames etc.: only fed to the mode terminal
   suspend <cnv> <clv> <row> <col> <style>\t bytes    model = tokens of `suspendW`; verdict: everything restored
@@ -91,24 +93,35 @@ def bad3 : String := "bad-op\tbad-op\tbad-op"
 def b (s : String) : Bool := s == "1"
 def cur (vis : Bool) : CursorState := { visible := vis }
 
+def strOfBytes (bs : List Nat) : String :=
+  match String.fromUTF8? ⟨(bs.map UInt8.ofNat).toArray⟩ with
+  | some s => s
+  | none => String.ofList (bs.map Char.ofNat)
+
 def step (s : St) (line : String) : St × String :=
   let (op, impl) := splitTab line
   match fields op with
   | "#case" :: _ => ({}, "-\t-\t-")
-  | ["env", bits, kf, ucs, app] =>
-      match kf.toNat?, ucs.toNat?, hexBytes? app with
-      | some kf, some ucs, some appB =>
+  | ["env", bits, kf, ucs, app, ucs0, app0] =>
+      match kf.toNat?, ucs.toNat?, hexBytes? app, ucs0.toNat? with
+      | some kf, some ucs, some appB, some ucs0 =>
         let bl := bits.toList.map (· == '1')
         let e : Env := { v := fun n => match varNames.idxOf? n with | some i => bl.getD i false | none => false,
-                         kittyFlags := kf, userCursorStyle := ucs, appId := String.ofList (appB.map Char.ofNat) }
+                         kittyFlags := kf, userCursorStyle := ucs, appId := strOfBytes appB }
         let t0 : MTerm :=
           { supported := (if e.v "caps.synchronizedUpdate" then [2026] else []) ++ (if e.v "caps.unicodeCore" then [2027] else []) ++
               (if e.v "caps.colorThemeUpdates" then [2031] else []) ++ (if e.v "caps.inBandResize" then [2048] else []) ++
               (if e.v "caps.sixels" then [8452] else [])
             kittySupported := e.v "caps.kittyKeyboard", appIdSupported := e.v "caps.osc176",
-            appId := if app = "-" then "" else app, cursorShape := ucs }
+            appId := if app0 = "-" then "" else app0, cursorShape := ucs0 }
         ({ env := e, t0 := t0, t := t0 }, "-\t-\t-")
-      | _, _, _ => (s, bad3)
+      | _, _, _, _ => (s, bad3)
+  | ["setappid", idh] =>
+      match lex impl, hexBytes? idh with
+      | some itoks, some idB =>
+        let c := canon [Tok.other (appIdSetRaw (strOfBytes idB))] itoks
+        ({ s with t := ModeTerm.run s.t itoks }, s!"{c.1}\t{c.2}\t-")
+      | _, _ => (s, bad3)
   | ["startup"] =>
       match lex impl with
       | some itoks =>
